@@ -28,6 +28,7 @@ let parse_atom s =
   | 'i' -> AInt (z_of_int (int_of_string rest))
   | 's' -> AStr (parse_str rest)
   | 'o' -> AOpaque (n_of_int (int_of_string rest))
+  | 'l' -> AList (n_of_int (int_of_string rest))
   | _ -> failwith ("atom " ^ s)
 
 let show_atom = function
@@ -35,6 +36,7 @@ let show_atom = function
   | AInt z -> "i" ^ string_of_int (int_of_z z)
   | AStr s -> "s" ^ show_str s
   | AOpaque n -> "o" ^ string_of_int (int_of_n n)
+  | AList n -> "l" ^ string_of_int (int_of_n n)
 
 (* recursive descent over a token list *)
 let rec parse_cv toks =
@@ -99,16 +101,21 @@ let handle line =
             let ii = int_of_string i in
             (match nth_opt p.p_builders ii with
              | None -> Buffer.add_string out ("C " ^ i ^ " ERR ERR ; ")
-             | Some b ->
+             | Some hb ->
+                 let b = view p hb in
                  let ((b', cs), o) = bcreate_st create_detaches_config b in
                  let (shown, allo) = (match o, cs with Some _, Some _ -> show_observed b cs | _, _ -> (show_sections b'.b_sections, "ERR")) in
                  Buffer.add_string out ("C " ^ i ^ " " ^ shown ^ " "
                                         ^ (match o with Some o -> show_cv (Node o) | None -> "ERR") ^ " " ^ allo ^ " ; "));
-            go (papply create_detaches_config builtin p (PCreate (nat_of_int ii))) r
+            (* the harness observes every new context completely (get_supported_languages) right after create() *)
+            let p1 = papply create_detaches_config builtin p (PCreate (nat_of_int ii)) in
+            let p2 = if List.length p1.p_ctxs > List.length p.p_ctxs
+                     then papply create_detaches_config builtin p1 (PObserve (nat_of_int (List.length p.p_ctxs))) else p1 in
+            go p2 r
         | t :: _ -> failwith ("op " ^ t) in
       let p = go empty_proc r1 in
       Buffer.add_string out "F";
-      List.iter (fun b -> Buffer.add_string out (" " ^ show_sections b.b_sections ^ " ;")) p.p_builders;
+      List.iter (fun hb -> Buffer.add_string out (" " ^ show_sections (view p hb).b_sections ^ " ;")) p.p_builders;
       Buffer.add_string out " X";
       List.iteri (fun c _ -> Buffer.add_string out (" " ^ (match ctx_report p (nat_of_int c) with Some s -> show_sections s | None -> "ERR") ^ " ;")) p.p_ctxs;
       print_string (Buffer.contents out ^ "\n")
@@ -141,6 +148,9 @@ let handle line =
        | sec :: k :: "d" :: d ->
            let dv = (match d with "-" :: _ -> None | _ -> Some (items (fst (parse_cv d)))) in
            print_string ("G " ^ show_res (fun m -> show_cv (Node m)) (config_value_as_dict secs (parse_str sec) (parse_str k) dv) ^ "\n")
+       | sec :: k :: "l" :: d :: _ ->
+           let dv = if d = "-" then None else Some (n_of_int (int_of_string d)) in
+           print_string ("G " ^ show_res (fun i -> "l" ^ string_of_int (int_of_n i)) (config_value_as_list secs (parse_str sec) (parse_str k) dv) ^ "\n")
        | _ -> print_string "ERR G\n")
   | _ -> print_string "ERR request\n"
 
